@@ -215,7 +215,7 @@ func cmdCompileCases(args []string) int {
 	st := newStats("C01", *seed)
 	// np generated/curated patterns are examined in addition to the whole corpus; at most
 	// maxCoq cases and maxTotal states go into the Coq file.
-	np, maxCoq, maxTotal, perPat := 500, 900, 60000, 3
+	np, maxCoq, maxTotal, perPat := 500, 600, 40000, 3
 	if *tier == "thorough" {
 		np, maxCoq, maxTotal, perPat = 4000, 1450, 110000, 4
 	}
